@@ -853,6 +853,7 @@ void GridFourier::mergeRefinement(){
     values.setValues(std::vector<double>(Utils::size_mult(num_outputs, num_all_points), 0.0));
     acceptUpdatedTensors();
     max_power = MultiIndexManipulations::getMaxIndexes(points); // the merged points can have larger exponents
+    calculateFourierCoefficients(); // the coefficients must match the merged points (all values are zero now)
 }
 
 void GridFourier::beginConstruction(){
